@@ -12,7 +12,7 @@ from datetime import date, timedelta
 from typing import Any, Dict, List, Optional
 
 from rpv import families
-from rpv.cli_core import cli_histories, cli_profile, generator_crash
+from rpv.cli_core import add_twin_fee, cli_histories, cli_profile, generator_crash
 from rpv.drive_cli import Workspace
 from rpv.gen import ALL_IN_TYPES, OUT_TYPES, parse_ts
 from rpv.oracle.jp import JPStats, check_jp_report
@@ -35,8 +35,8 @@ ASSUMPTIONS = [
     "rp2_jp is not given -f together with -t (KF3 of C16)",
 ]
 SETTINGS: Dict[str, Dict[str, Any]] = {
-    "quick": {"cases": 96, "budget_s": 60, "minimums": {"asset_year_sheets": 400, "chain_links": 200, "chain_to_non_adjacent_year": 40, "nontrivial": 40}},
-    "thorough": {"cases": 2500, "budget_s": 420, "minimums": {"asset_year_sheets": 4000, "chain_links": 2000, "chain_to_non_adjacent_year": 400, "nontrivial": 400}},
+    "quick": {"cases": 96, "budget_s": 60, "minimums": {"asset_year_sheets": 300, "chain_links": 200, "chain_to_non_adjacent_year": 40, "nontrivial": 25, "reports_with_a_fee_row_equal_to_a_transfer_fee": 3}},
+    "thorough": {"cases": 2500, "budget_s": 420, "minimums": {"asset_year_sheets": 4000, "chain_links": 2000, "chain_to_non_adjacent_year": 400, "nontrivial": 400, "reports_with_a_fee_row_equal_to_a_transfer_fee": 60}},
 }
 
 
@@ -87,6 +87,10 @@ def make_case(rng: random.Random, index: int) -> Dict[str, Any]:
         hists = sparse_case(rng)
     else:
         hists = cli_histories(rng, rng.randint(1, 3), cli_profile(gap_style=rng.choice(("long", "medium", "boundary")), max_events=rng.choice((8, 14)), min_events=4, tie_prob=0.0, mixed_tz=rng.random() < 0.4))
+    if index % 8 in (3, 6):
+        # a transfer fee and a FEE-typed out-transaction of the same account, instant and amount: two transactions, two rows
+        for hist in hists.values():
+            add_twin_fee(rng, hist)
     language = rng.choice(("en", "kl"))
     dates = sorted({parse_ts(r["ts"]).date() for h in hists.values() for r in h["rows"]})
     from_s = to_s = None
@@ -141,6 +145,8 @@ def _one(ctx: Any, case: Dict[str, Any], name: str) -> None:
         ctx.count("first_year_opening_zero", stats.opening_zero)
         ctx.count("summary_lines", stats.summary_lines)
         ctx.tag("tag_language", case["language"])
+        if any("twinfee" in str(r.get("uid")) for h in hists.values() for r in h["rows"]):
+            ctx.count("reports_with_a_fee_row_equal_to_a_transfer_fee")
         if stats.chain_to_non_adjacent_year:
             ctx.distinct("nontrivial", case)
             ctx.sample({"language": case["language"], "window": [case.get("from"), case.get("to")], "asset_years": {a: sorted({parse_ts(r['ts']).year for r in h['rows']}) for a, h in hists.items()}, "chain_links": stats.chain_links})
